@@ -26,19 +26,24 @@ open Nexus
 /-- The 4-byte header `sendHandler` builds for a payload of n bytes. -/
 def frameHeader (n : Nat) : List UInt8 := Gen.sendHeader (Gen.intToBytes (Int.ofNat n))
 
+/-- A part of a write call as named in `Gen.senderWriteParts` / `Gen.pongWriteParts`. -/
+def writePart (header payload : List UInt8) : String → List UInt8
+  | "header" => header
+  | "b" => payload
+  | "payload" => payload
+  | _ => []
+
 /-- The `conn.Write` calls of `sendHandler` for one serialised message, in
-    order (`none`: the message is dropped before anything is written). -/
+    order (`none`: the message is dropped before anything is written). How many
+    calls there are and what each carries comes from the source
+    (`Gen.senderWriteParts`): one call `header ++ b` today, two calls before. -/
 def frameWrites (sendLimit : Int) (payload : List UInt8) : Option (List (List UInt8)) :=
   if Gen.sendDrop (Int.ofNat payload.length) sendLimit then none
-  else some [frameHeader payload.length, payload]
+  else some (Gen.senderWriteParts.map (fun parts => parts.flatMap (writePart (frameHeader payload.length) payload)))
 
 /-- The bytes on the wire for one message. -/
 def frame (sendLimit : Int) (payload : List UInt8) : Option (List UInt8) :=
   (frameWrites sendLimit payload).map List.flatten
-
-/-- The generated tables say: header first, then the payload; PONG header then the copy. -/
-example : Gen.senderWrites = ["header", "b"] := rfl
-example : Gen.pongWrites = ["header[:]", "io.CopyN(rs.conn, rs.conn, length)"] := rfl
 
 /-- A message passes the sender's size check. -/
 def fits (sendLimit : Int) (payload : List UInt8) : Bool :=
@@ -64,14 +69,17 @@ inductive CloseReason where
   deriving Repr, DecidableEq
 
 /-- Where the reader goroutine is blocked. `body n acc`: `io.ReadFull(buf)` still
-    needs n+1 bytes, `acc` holds the bytes read so far, newest first. `echo n` /
-    `discard n`: `io.CopyN` still has n+1 bytes to go. -/
+    needs n+1 bytes, `acc` holds the bytes read so far, newest first. `pbody`: the same
+    for a PING payload read into `pong[4:]` (the three length bytes are kept for the answer).
+    `echo n` (only when the source answers a PING with `io.CopyN(conn, conn)`, i.e.
+    `Gen.pongAfterPayload = false`) / `discard n`: `io.CopyN` still has n+1 bytes to go. -/
 inductive RState where
   | hdr0
   | hdr1 (h0 : UInt8)
   | hdr2 (h0 l0 : UInt8)
   | hdr3 (h0 l0 l1 : UInt8)
   | body (more : Nat) (acc : List UInt8)
+  | pbody (l0 l1 l2 : UInt8) (more : Nat) (acc : List UInt8)
   | echo (more : Nat)
   | discard (more : Nat)
   | closed (why : CloseReason)
@@ -96,6 +104,15 @@ def onPayload (payload : List UInt8) : RState × List (Ev M) :=
   | some m => (.hdr0, [.deliver m])
   | none => if Gen.deserializeErrorSkips then (.hdr0, []) else (.closed .undeserialisable, [])
 
+/-- A PING header announcing n payload bytes has been read. -/
+def onPing (l0 l1 l2 : UInt8) (n : Nat) : RState × List (Ev M) :=
+  match Gen.pongAfterPayload with
+  | true =>  -- read the payload, then ONE write of the whole PONG frame
+    if n = 0 then (.hdr0, [.wrote [Gen.pongType, l0, l1, l2]])
+    else (.pbody l0 l1 l2 (n - 1) [], [])
+  | false => -- PONG header at once, then the payload copied back as it arrives
+    (if n = 0 then .hdr0 else .echo (n - 1), [.wrote [Gen.pongType, l0, l1, l2]])
+
 /-- The four header bytes have been read. -/
 def onHeader (recvLimit : Int) (h0 l0 l1 l2 : UInt8) : RState × List (Ev M) :=
   let length := Gen.bytesToInt [l0, l1, l2]
@@ -103,8 +120,7 @@ def onHeader (recvLimit : Int) (h0 l0 l1 l2 : UInt8) : RState × List (Ev M) :=
   else
     match Gen.readerCase (Gen.frameType h0) with
     | .msg => if length.toNat = 0 then onPayload de [] else (.body (length.toNat - 1) [], [])
-    | .ping =>
-      (if length.toNat = 0 then .hdr0 else .echo (length.toNat - 1), [.wrote [Gen.pongType, l0, l1, l2]])
+    | .ping => onPing l0 l1 l2 length.toNat
     | .pong => (if length.toNat = 0 then .hdr0 else .discard (length.toNat - 1), [])
     | .reserved => (.closed .reservedType, [])
     | .fallthroughNil => (.hdr0, [.deliverNil])
@@ -117,6 +133,8 @@ def step (recvLimit : Int) : RState → UInt8 → RState × List (Ev M)
   | .hdr3 h0 l0 l1, b => onHeader de recvLimit h0 l0 l1 b
   | .body 0 acc, b => onPayload de (b :: acc).reverse
   | .body (n + 1) acc, b => (.body n (b :: acc), [])
+  | .pbody l0 l1 l2 0 acc, b => (.hdr0, [.wrote (Gen.pongType :: l0 :: l1 :: l2 :: (b :: acc).reverse)])
+  | .pbody l0 l1 l2 (n + 1) acc, b => (.pbody l0 l1 l2 n (b :: acc), [])
   | .echo 0, b => (.hdr0, [.wrote [b]])
   | .echo (n + 1), b => (.echo n, [.wrote [b]])
   | .discard 0, _ => (.hdr0, [])
